@@ -333,6 +333,21 @@ func runShard(id, tier string, seed int64, shard, nshards int, cfg propCfg, work
 			a.mu.Unlock()
 			return
 		}
+		if strings.Contains(stderrS, "CASE-WATCHDOG") {
+			// one case ran for too long: inconclusive (already recorded by the worker), go on with the next
+			a.mu.Lock()
+			a.counters["case_watchdogs"]++
+			if len(a.incons) < 10 {
+				a.incons = append(a.incons, fmt.Sprintf("case watchdog at %s#%d, goroutine dump in %s.stderr", cs, ci, base))
+			}
+			a.mu.Unlock()
+			if only >= 0 || ci < 0 {
+				return
+			}
+			fromStream = cs
+			from = ci + 1
+			continue
+		}
 		if strings.Contains(stderrS, "GUARD-EXIT") {
 			// the worker's resource guard reported the case itself and exited
 			a.mu.Lock()
